@@ -50,7 +50,14 @@ func condFacts(e ast.Expr, truth bool, out *[]ast.Expr, strs *[]string) {
 			return
 		}
 		if x.Op == token.LAND || x.Op == token.LOR {
-			return // a disjunction gives no atomic fact
+			// a disjunction gives no atomic fact; keep it whole
+			s := types.ExprString(e)
+			if !truth {
+				s = "!(" + s + ")"
+			}
+			*out = append(*out, e)
+			*strs = append(*strs, s)
+			return
 		}
 		if n, ok := negOp[x.Op]; ok {
 			op := x.Op
